@@ -232,6 +232,9 @@ func modeCancel1(a args) {
 		t.AllowFailure = sp.Allow
 		if sp.TaskTimeout {
 			to := 90 * time.Second
+			if sp.Point == "free" && sp.Cmd == "ticker" {
+				to = 0 // a timeout that is present and zero: whatever it means, Cancel still ends the task
+			}
 			t.Timeout = &to
 		}
 		return t
@@ -369,6 +372,10 @@ func modeCancel1(a args) {
 		for i := 0; i < n; i++ {
 			select {
 			case <-ret:
+				if i == 0 && n > 1 {
+					// the first of several concurrent callers is back: for that caller cancellation has completed
+					appendTrace(trace, "FIRST_CANCEL_RET")
+				}
 			case <-time.After(cancelBound):
 				timedOut("Cancel")
 			}
@@ -545,6 +552,10 @@ func modeCancel1(a args) {
 				if newPass {
 					fail("condition-evaluated-after-cancel-returned", fmt.Sprintf("stage condition %s was executed in a scheduling pass that began after CANCEL_RET", t))
 				}
+			}
+			if fr, ok := pos["FIRST_CANCEL_RET"]; ok && i > fr && t == "TICK" {
+				fail("command-still-running-after-cancel-returned/one-of-several-callers", "one of several concurrent Cancel calls returned while a command that was in flight was still running (it wrote to the trace afterwards)")
+				break
 			}
 			if i > cret && t == "TICK" {
 				fail("command-still-running-after-cancel-returned", "a command that was in flight wrote to the trace after CANCEL_RET: cancellation returned before the command had been terminated")
